@@ -14,7 +14,7 @@ from fractions import Fraction
 import numpy as np
 import z3
 
-from .core import SV, SB, Abort, Ctx, explore, exprs, cur, rv, model_float, NUM
+from .core import SV, SB, Abort, Ctx, explore, exprs, cur, rv, model_float, NUM, DEBUG
 from .mk import SymMk, ConcMk, differs
 
 
@@ -161,12 +161,12 @@ def log_equals_log_of(code_log, ref_pos):
     for _ in range(den):
         rp = rp * r
     # exp(code)^den == ref^den, all factors positive
-    return num != rp * dn, pos
+    return num, rp * dn, pos
 
 
 # ---------------------------------------------------------------- symbolic run
 def run_problem(rec, prob, kwargs=None, key_prefix="", timeout_ms=60000, max_paths=400, robust=True,
-                per_entry_fallback=True, feas_timeout_ms=10000, well_defined=True):
+                per_entry_fallback=True, feas_timeout_ms=4000, well_defined=True):
     """Explore prob symbolically and discharge every item on every path."""
     kwargs = kwargs or {}
     n_items = 0
@@ -174,6 +174,8 @@ def run_problem(rec, prob, kwargs=None, key_prefix="", timeout_ms=60000, max_pat
     def fn(ctx):
         mk = CtxSymMk()
         ctx.mk = mk
+        from . import stubs as _stubs
+        _stubs.EIGH_KNOWN.clear()
         try:
             items = prob(mk, **kwargs)
         except Skip as e:
@@ -190,7 +192,9 @@ def run_problem(rec, prob, kwargs=None, key_prefix="", timeout_ms=60000, max_pat
         if tag == "skip":
             rec.note(f"skipped: {res[1]}")
             continue
-        if rec.reachable(f"path{rec.paths}", assumptions) != "sat":
+        tw = rec.reachable(f"path{rec.paths}", assumptions, names=mk.names, seed_from=ctx.base + ctx.pc + ctx.extra)
+        if tw == "unsat":
+            rec.note(f"path{rec.paths}: infeasible (explored because a feasibility query timed out); dropped")
             continue
         if tag == "crash":
             exc = res[1]
@@ -222,38 +226,40 @@ def run_problem(rec, prob, kwargs=None, key_prefix="", timeout_ms=60000, max_pat
 def _discharge(rec, it, assumptions, mk, kwargs, key_prefix, timeout_ms, robust, per_entry_fallback):
     key = it.key or f"{key_prefix}{it.label}"
     extra = []
-    if it.kind == "eq":
-        ca, ra = np.asarray(it.code, dtype=object), np.asarray(it.ref, dtype=object)
-        if ca.shape != ra.shape:
-            try:
-                ca, ra = np.broadcast_arrays(ca, ra)
-            except ValueError:
-                rec.candidate(key=key + "/shape", label=f"{it.label}: shape {ca.shape} vs reference {ra.shape}",
-                              payload={"kwargs": kwargs, "values": {}, "label": it.label})
+    pairs = None
+    all_zero = False
+    if it.kind in ("eq", "logabs"):
+        if it.kind == "eq":
+            ca, ra = np.asarray(it.code, dtype=object), np.asarray(it.ref, dtype=object)
+            if ca.shape != ra.shape:
+                try:
+                    ca, ra = np.broadcast_arrays(ca, ra)
+                except ValueError:
+                    rec.candidate(key=key + "/shape", label=f"{it.label}: shape {ca.shape} vs reference {ra.shape}",
+                                  payload={"kwargs": kwargs, "values": {}, "label": it.label})
+                    return
+            pairs = []
+            for x, y in zip(ca.ravel(), ra.ravel()):
+                if isinstance(x, SB) or isinstance(y, SB):
+                    raise TypeError("SB in eq item")
+                ex, ey = SV.lift(_plain(x)).e, SV.lift(_plain(y)).e
+                if ex.eq(ey):
+                    continue
+                pairs.append((ex, ey))
+            if not pairs:
                 return
-        pairs = []
-        for x, y in zip(ca.ravel(), ra.ravel()):
-            if isinstance(x, SB) or isinstance(y, SB):
-                raise TypeError("SB in eq item")
-            ex, ey = SV.lift(_plain(x)).e, SV.lift(_plain(y)).e
-            if ex.eq(ey):
-                continue
-            pairs.append((ex, ey))
-        if not pairs:
-            return
-        negs = [a != b for a, b in pairs]
-    elif it.kind == "logabs":
-        try:
-            neg, extra = log_equals_log_of(it.code, it.ref)
-        except ValueError as e:
-            rec.errors.append(f"{it.label}: cannot exponentiate log expression: {e}")
-            return
-        negs = [neg]
-        pairs = None
+        else:
+            try:
+                lhs, rhs, extra = log_equals_log_of(it.code, it.ref)
+            except ValueError as e:
+                rec.errors.append(f"{it.label}: cannot exponentiate log expression: {e}")
+                return
+            # all factors are non-negative: compare squares so |x| atoms reduce to x^2
+            pairs = [(lhs * lhs, rhs * rhs)]
+        negs, all_zero = _normalised_negations(rec, pairs, assumptions + extra)
     elif it.kind == "true":
         e = it.code.e if isinstance(it.code, SB) else (z3.BoolVal(bool(it.code)) if not z3.is_expr(it.code) else it.code)
         negs = [z3.Not(e)]
-        pairs = None
     else:
         raise ValueError(it.kind)
     ass = assumptions + extra
@@ -262,13 +268,13 @@ def _discharge(rec, it, assumptions, mk, kwargs, key_prefix, timeout_ms, robust,
     def payload(m):
         return {"kwargs": kwargs, "values": mk.values(m), "label": it.label}
 
-    v = rec.obligation(it.label, ass, goal, key=key, replay=payload, timeout_ms=timeout_ms)
+    v = rec.obligation(it.label, ass, goal, key=key, replay=payload, timeout_ms=timeout_ms, syntactic=all_zero)
     if v.status == "unknown" and per_entry_fallback and len(negs) > 1:
         # retry entry by entry (smaller queries); the grouped 'unknown' record is replaced
         rec.obligations.pop()
         for i, ng in enumerate(negs):
             rec.obligation(f"{it.label}[{i}]", ass, ng, key=key, replay=payload, timeout_ms=timeout_ms)
-    elif v.status == "sat" and robust and pairs is not None:
+    elif v.status == "sat" and robust and pairs is not None and it.kind == "eq":
         # look for a better conditioned witness for the replay: bounded inputs, discrepancy >= 1/100
         margin = z3.Or(*[z3.Or(a - b >= rv(Fraction(1, 100)), b - a >= rv(Fraction(1, 100))) for a, b in pairs])
         s = z3.Solver()
@@ -279,6 +285,41 @@ def _discharge(rec, it, assumptions, mk, kwargs, key_prefix, timeout_ms, robust,
         if str(s.check()) == "sat":
             rec.candidates[-1]["payload"] = payload(s.model())
             rec.candidates[-1]["robust_witness"] = True
+
+
+_RNG = __import__("random").Random(12345)
+
+
+def _normalised_negations(rec, pairs, assumptions):
+    """code != ref per entry, with both sides brought to the normal form N != 0 (symx.canon)."""
+    from .canon import Canon, selfcheck
+
+    cn = Canon()
+    try:
+        cn.learn_rules(assumptions)
+    except Exception:  # noqa: BLE001
+        pass
+    negs = []
+    all_zero = True
+    for ex, ey in pairs:
+        try:
+            N, d1, d2 = cn.difference_numerator(ex, ey)
+        except (ValueError, ZeroDivisionError, RecursionError):
+            rec.data_canon_fallback = getattr(rec, "data_canon_fallback", 0) + 1
+            negs.append(ex != ey)
+            all_zero = False
+            continue
+        sc = selfcheck(cn, ex, cn.rf(ex), _RNG, tries=1) if not cn.rules else None
+        if sc is False:
+            raise RuntimeError("canonicaliser self-check failed (normal form disagrees with the z3 term)")
+        if sc:
+            rec.canon_selfchecks = getattr(rec, "canon_selfchecks", 0) + 1
+        if DEBUG and not N.is_zero():
+            print(f"[canon] N has {N.nterms()} terms, atoms: {[str(cn.atom_terms[a])[:60] for a in sorted(N.atoms())][:12]}", flush=True)
+        if not N.is_zero():
+            all_zero = False
+        negs.append(cn.poly_to_z3(N) != 0)
+    return negs, all_zero
 
 
 def _plain(x):
